@@ -310,8 +310,9 @@ pub struct EvalSpace {
 }
 
 pub fn named_syms(k: usize) -> Vec<NamedSymbol> {
-    // non-adjacent ids
-    [("a", 1usize), ("b", 4), ("c", 6), ("d", 9)].iter().take(k).map(|(n, i)| sym(n, *i)).collect()
+    // non-adjacent ids; c, d (and the outside variable z) are congruent modulo 32 and 64, so an
+    // implementation that keeps variable ids in a machine-word bit set would confuse them
+    [("a", 1usize), ("b", 4), ("c", 38), ("d", 102)].iter().take(k).map(|(n, i)| sym(n, *i)).collect()
 }
 
 impl EvalSpace {
@@ -319,7 +320,7 @@ impl EvalSpace {
         let syms = named_syms(k);
         let sp = Space::<NamedSymbol>::empty(&syms);
         let mut qpool = syms.clone();
-        qpool.push(sym("z", 12));
+        qpool.push(sym("z", 166));
         let pf = ParsedFormula { vars: qpool.clone(), free_vars: syms.clone(), raw2free: vec![], bdd: SymbolicBDD::True, env: sp.env.clone(), definitions: Default::default() };
         EvalSpace { sp, qpool, pf }
     }
